@@ -611,6 +611,18 @@ func (w *World) typeAssert(i *ssa.TypeAssert, xv Val) Val {
 			}
 			panic(goPanicSignal{"interface conversion: interface {} is not string (JSON member " + jf.f + ")"})
 		}
+		if b, okb := i.AssertedType.Underlying().(*types.Basic); okb && b.Kind() == types.Float64 && jf.f == "priority" {
+			if w.truth(w.recFn(jf.r, "mIsNum_priority", "Bool")) {
+				if i.CommaOk {
+					return TupleV{w.recFn(jf.r, "mNum_priority", "Real"), true}
+				}
+				return w.recFn(jf.r, "mNum_priority", "Real")
+			}
+			if i.CommaOk {
+				return TupleV{float64(0), false}
+			}
+			panic(goPanicSignal{"interface conversion: interface {} is not float64 (JSON member priority)"})
+		}
 		panic(engErr("type assertion on JSON member to " + i.AssertedType.String()))
 	}
 	ok := false
